@@ -45,6 +45,18 @@ class DbusOrder:
             setattr(self, n, v)
 
 
+class TupleOrder(tuple):
+    """struct given as a tuple subclass (think namedtuple) that declares its field order - which is not the order of
+    its positions"""
+
+    def __new__(cls, vals):
+        self = tuple.__new__(cls, tuple(reversed(vals)))
+        self.dbusOrder = ['f%d' % i for i in range(len(vals))]
+        for n, v in zip(self.dbusOrder, vals):
+            setattr(self, n, v)
+        return self
+
+
 def to_py(T, v, in_variant=False, style=0):
     """TLA value -> Python value to hand to marshal().  in_variant: the value must make sigFromPy
     infer exactly sig(T).  style rotates between equivalent Python spellings (list/tuple/object
@@ -97,6 +109,8 @@ def to_py(T, v, in_variant=False, style=0):
             return t
         if style % 3 == 1:
             return tuple(items)
+        if style == 5 and len(items) > 1:
+            return TupleOrder(items)
         if style % 3 == 2:
             return DbusOrder(items)
         return items
